@@ -34,6 +34,12 @@ func checkC02(w *World, r *Report) {
 	checkC02ConflictScope(w, r)
 	checkC02PatternHostIntact(w, r)
 	checkC02ExactLookupNeedsLiteralWildcards(w, r)
+	checkC02IteratorsComplete(w, r)
+	// "a failed call changes nothing" (and an aborted transaction's calls): the mutators may only write storage private to
+	// the transaction (rule C03.1, repeated here)
+	o := newOwn(w)
+	o.analyseAll()
+	checkOwnWrites(w, r, o, "C02.12")
 }
 
 // ---- C02.1 ---------------------------------------------------------------------------------------------------
@@ -952,4 +958,87 @@ func checkC02ExactLookupNeedsLiteralWildcards(w *World, r *Report) {
 		return
 	}
 	ru.Check("child search used by "+viaMatcher, w.Pos(af.decl.Pos()), "takes '{' and '*' literally while exact lookups depend on it", guarded == "", orDefault(guarded+": a registered pattern whose wildcard has a higher-priority sibling is reported absent", "unguarded"))
+}
+
+// ---- C02.11 ------------------------------------------------------------------------------------------------
+
+// checkC02IteratorsComplete: the iterators report "exactly that set" only if they visit every requested method: inside a
+// loop of an iterator body, a bare return is allowed only where the consumer asked to stop (`!yield(...)`); a method
+// without anything to report is skipped with continue.
+func checkC02IteratorsComplete(w *World, r *Report) {
+	ru := r.Rule("C02.11", "iterators do not stop early: in the iterator functions of Iter (and the raw tree iterator), every return inside a loop is taken only when yield returned false", 3)
+	p := w.ByPath[modulePath]
+	n := 0
+	for _, f := range p.Syntax {
+		if !strings.HasSuffix(w.Fset.Position(f.Pos()).Filename, "iter.go") {
+			continue
+		}
+		for _, d := range f.Decls {
+			fd, ok := d.(*ast.FuncDecl)
+			if !ok || fd.Body == nil {
+				continue
+			}
+			ast.Inspect(fd.Body, func(nd ast.Node) bool {
+				lit, ok := nd.(*ast.FuncLit)
+				if !ok || len(lit.Type.Params.List) != 1 {
+					return true
+				}
+				yieldName := ""
+				if len(lit.Type.Params.List[0].Names) == 1 {
+					yieldName = lit.Type.Params.List[0].Names[0].Name
+				}
+				if _, isFn := lit.Type.Params.List[0].Type.(*ast.FuncType); !isFn || yieldName == "" {
+					return true
+				}
+				// walk with a stack of enclosing statements
+				var stack []ast.Node
+				ast.Inspect(lit.Body, func(m ast.Node) bool {
+					if m == nil {
+						stack = stack[:len(stack)-1]
+						return true
+					}
+					stack = append(stack, m)
+					ret, ok := m.(*ast.ReturnStmt)
+					if !ok {
+						return true
+					}
+					inLoop := false
+					var guard *ast.IfStmt
+					for i := len(stack) - 2; i >= 0; i-- {
+						switch x := stack[i].(type) {
+						case *ast.ForStmt, *ast.RangeStmt:
+							inLoop = true
+						case *ast.IfStmt:
+							if guard == nil && !inLoop {
+								guard = x
+							}
+						case *ast.FuncLit:
+							i = -1
+						}
+					}
+					if !inLoop {
+						return true
+					}
+					n++
+					okk := false
+					if guard != nil {
+						ast.Inspect(guard.Cond, func(c ast.Node) bool {
+							if u, ok := c.(*ast.UnaryExpr); ok && u.Op == token.NOT {
+								if call, ok := u.X.(*ast.CallExpr); ok && exprStr(call.Fun) == yieldName {
+									okk = true
+								}
+							}
+							return true
+						})
+					}
+					ru.Check("return inside a loop of "+fd.Name.Name, w.Pos(ret.Pos()), "taken only when "+yieldName+"(...) returned false", okk, orDefault(map[bool]string{true: "after !" + yieldName + "(...)"}[okk], "the iteration ends although the consumer did not ask to stop: the remaining methods / routes are never reported"))
+					return true
+				})
+				return false
+			})
+		}
+	}
+	if n == 0 {
+		r.Unrecognised("C02.11: no return inside an iterator loop found in iter.go")
+	}
 }
